@@ -57,7 +57,7 @@ Qed.
 
 (* the validators, read as the conditions they stand for *)
 Lemma positive_int_means_nonneg i : validate_positive (WPrim (CI i)) = Ok tt <-> 0 <= i.
-Proof. simpl. destruct (i <? 0) eqn:E; split; intro H; try discriminate; try reflexivity; lia. Qed.
+Proof. unfold validate_positive. cbn [chase_view]. destruct (i <? 0) eqn:E; split; intro H; try discriminate; try reflexivity; lia. Qed.
 
 Lemma nonzero_int_means_nonzero i : validate_nonzero (WPrim (CI i)) = Ok tt <-> i <> 0.
 Proof. simpl. destruct (i =? 0) eqn:E; split; intro H; try discriminate; try reflexivity; lia. Qed.
@@ -75,7 +75,7 @@ Qed.
 Lemma min_int_means_bound vo p b i :
   parse_int0 p = Some b -> (validate_minmax vo true p (WPrim (CI i)) = Ok tt <-> b <= i).
 Proof.
-  intro Hp. simpl. rewrite Hp. destruct (Z.compare i b) eqn:C; split; intro H; try discriminate; try reflexivity.
+  intro Hp. unfold validate_minmax. cbn [chase_view]. rewrite Hp. destruct (Z.compare i b) eqn:C; split; intro H; try discriminate; try reflexivity.
   - apply Z.compare_eq in C. lia.
   - rewrite Z.compare_lt_iff in C. lia.
   - rewrite Z.compare_gt_iff in C. lia.
@@ -84,11 +84,16 @@ Qed.
 Lemma max_int_means_bound vo p b i :
   parse_int0 p = Some b -> (validate_minmax vo false p (WPrim (CI i)) = Ok tt <-> i <= b).
 Proof.
-  intro Hp. simpl. rewrite Hp. destruct (Z.compare i b) eqn:C; split; intro H; try discriminate; try reflexivity.
+  intro Hp. unfold validate_minmax. cbn [chase_view]. rewrite Hp. destruct (Z.compare i b) eqn:C; split; intro H; try discriminate; try reflexivity.
   - apply Z.compare_eq in C. lia.
   - rewrite Z.compare_lt_iff in C. lia.
   - rewrite Z.compare_gt_iff in C. lia.
 Qed.
+
+(* positive, min and max judge what a pointer points to *)
+Lemma validators_look_through_pointers vo ismin p w :
+  validate_positive (WPtr w) = validate_positive w /\ validate_minmax vo ismin p (WPtr w) = validate_minmax vo ismin p w.
+Proof. split; reflexivity. Qed.
 
 Lemma required_rejects_nil_pointer : validate_required WPtrNil = Err ERequired "".
 Proof. reflexivity. Qed.
